@@ -293,6 +293,22 @@ def gen(rng, tier):
     for _ in range(n // 6):
         a = gen_doc(rng)
         cases.append({"f": a, "t": shuffled(rng, a), "opts": rng.choice(OPT_SETS)})
+    # lists over a tiny alphabet (runs of equal neighbours), one element duplicated or deleted somewhere: shared prefix and
+    # shared suffix of the two lists overlap
+    for i in range(n // 2):
+        al = rng.choice([[1, 2], [1, 2, 3], ["a", "b"], [1, "a", None], [[1], [2]], [{"k": 1}, 2]])
+        a = [rng.choice(al) for _ in range(rng.randint(2, 7))]
+        b = list(a)
+        j = rng.randrange(len(b))
+        if rng.random() < 0.5:
+            b.insert(j, b[j])
+        else:
+            b.pop(j)
+        if rng.random() < 0.3:
+            a, b = b, a
+        if i % 4 == 3:
+            a, b = {"k": a, "z": 1}, {"k": b, "z": 1}
+        cases.append({"f": a, "t": b, "opts": rng.choice(OPT_SETS)})
     # documents that differ in ONE scalar whose replacement has the same hash (-1 / -2, true / 1, false / 0)
     for _ in range(n // 3):
         a, b = collide(rng, gen_doc(rng))
